@@ -10,7 +10,7 @@ import (
 
 func init() {
 	register("C15", propMeta{
-		Explanation: "E-GUARD + E-LOCK x E-CHAN + E-PANIC on client/lib. O-1 capacity gate: in Collect the rendezvous (Tongue.Catch) is reachable only through the false edge of count >= max, with collectLock held continuously from the count to the insertion into activePeers, which has no other inserter; the hand-over channel's capacity is the maximum. O-2: Pop returns a peer only through the false edge of Closed() on that very peer. O-3 close-once: every close(ch) in client/lib is inside a sync.Once.Do closure or is a verified table row; O-3b no send can race with a close: for every channel that is both closed and sent on, one mutex is held at the close and at every send. O-4: while collectLock is held every channel operation is polling or is a select with a case on the melt channel (End needs the lock). O-5 shutdown reaches every loop: connectLoop blocks only in a select with a Melted() case that returns; Collect tests melt first under the lock; End closes melt before taking the lock and then closes every peer it holds; SnowflakeConn.Close reaches End, the packet conn, the session and the stream on all paths; the staleness loop selects on the peer's closed channel. O-6 a failed attempt cannot terminate the process: from Collect no reachable repository code contains an undischarged panic/Fatal/Exit/assertion, pointer results are used only behind their err == nil edge, and a field that a failing method may leave nil is not dereferenced before that method's error is tested. Each clause is a necessary condition: e.g. an unconditional send under collectLock makes Close hang once spare peers went stale. Added after the second seeding round: O-6d every construction of an event type whose String() calls Error() on a field without a nil test supplies a value that is non-nil at the construction site (fresh error, behind its != nil edge, or the argument of an error callback). The melt test and the hand-over select may live in helpers of Collect (boolean-helper summaries, entry locksets).",
+		Explanation: "E-GUARD + E-LOCK x E-CHAN + E-PANIC on client/lib. O-1 capacity gate: in Collect the rendezvous (Tongue.Catch) is reachable only through the false edge of count >= max, with collectLock held continuously from the count to the insertion into activePeers, which has no other inserter; the hand-over channel's capacity is the maximum. O-2: Pop returns a peer only through the false edge of Closed() on that very peer. O-3 close-once: every close(ch) in client/lib is inside a sync.Once.Do closure or is a verified table row; O-3b no send can race with a close: for every channel that is both closed and sent on, one mutex is held at the close and at every send. O-4: while collectLock is held every channel operation is polling or is a select with a case on the melt channel (End needs the lock). O-5 shutdown reaches every loop: connectLoop blocks only in a select with a Melted() case that returns; Collect tests melt first under the lock; End closes melt before taking the lock and then closes every peer it holds; SnowflakeConn.Close reaches End, the packet conn, the session and the stream on all paths; the staleness loop selects on the peer's closed channel. O-6 a failed attempt cannot terminate the process: from Collect no reachable repository code contains an undischarged panic/Fatal/Exit/assertion, pointer results are used only behind their err == nil edge, and a field that a failing method may leave nil is not dereferenced before that method's error is tested. Each clause is a necessary condition: e.g. an unconditional send under collectLock makes Close hang once spare peers went stale. Added after the second seeding round: O-6d every construction of an event type whose String() calls Error() on a field without a nil test supplies a value that is non-nil at the construction site (fresh error, behind its != nil edge, or the argument of an error callback). The melt test and the hand-over select may live in helpers of Collect (boolean-helper summaries, entry locksets). Added after the third seeding round: the closed mark precedes the teardown steps in WebRTCPeer.Close; the rendezvous transport keeps ResponseHeaderTimeout (borrowed from C01); a vanished Count() use in the capacity test is a violation.",
 		NotDecided:  "bounded time of Close, pion callback behaviour after Close, the TOCTOU between Closed() in Pop and first use, panics inside third-party code.",
 		Assumptions: []string{"pion fires OnOpen at most once per data channel (table row)", "crypto/rand failure is not a rendezvous failure (two panic rows)", "lock identity is (type, field)"},
 	}, runC15)
@@ -49,7 +49,12 @@ func runC15(c *Ctx) {
 			pushBack = ci
 		}
 	}
-	if catch == nil || count == nil || getMax == nil || pushBack == nil {
+	if count == nil && catch != nil && getMax != nil {
+		c.missingOrMoved(rule1, "Collect compares the number of live peers with the maximum", collect, func(in ssa.Instruction) bool {
+			ci, ok := in.(ssa.CallInstruction)
+			return ok && calleeName(ci) == "(*client/lib.Peers).Count"
+		}, "the call of Peers.Count()", "the capacity gate does not count the peers that are alive (popped peers still in use included): more than the maximum can be open at once")
+	} else if catch == nil || count == nil || getMax == nil || pushBack == nil {
 		c.undecided(rule1, "Collect: Count/GetMax/Catch/PushBack", p.Pos(collect.Pos()), "one of the calls was not found")
 	} else {
 		// edges on which  Count() < GetMax()  is known (any source form)
@@ -255,6 +260,12 @@ func runC15(c *Ctx) {
 	c.count("nil-after-error field summaries", len(sums))
 	c.checkFieldAfterError("O-6c field left nil by a failing method is not used before the error test", cl, sums)
 	c.checkEventErrors("O-6d events carry the error their String() dereferences")
+	// Pop skips peers by Closed(): the mark must precede the teardown (C01's obligation); and a rendezvous
+	// attempt is bounded, or Collect parks under collectLock for ever and End/Close never return (C01's)
+	c.prefix = "O-2b/C01:"
+	c.checkClosedBeforeTeardown("O-7 liveness glue")
+	c.checkBoundedRendezvous("O-7 liveness glue")
+	c.prefix = ""
 	if len(sums) == 0 {
 		c.undecided("O-6c field left nil by a failing method is not used before the error test", "summaries", "-", "no (field, method) summary found; expected WebRTCPeer.pc set by preparePeerConnection")
 	}
